@@ -1070,6 +1070,12 @@ def check_C18(sc, v, tier, seed, replay):
                                                          "use_opc": i % 2 == 1, "gnb_bits": 32 if i % 2 == 1 else 22 + (seed + 4 * (i + 7)) % 11,
                                                          "gid_hex": i % 2 == 1})
         jobs.append(("wire%02d" % i, s2, t2))
+    # the configured IMSI is a number to which the UE index is added: a block of three subscribers that crosses a multiple of 10^9
+    # (15 digits, the third UE carries into the tenth digit from the right) and, in the thorough tier, of 10^6 / 10^12
+    for i, mv in enumerate([999999998] if tier == "quick" else [999999998, 1999999999, 999998, 8999999999]):
+        s2, t2 = online.make_scenario(rnd, {"reg": 3, "pdu": 0, "svc": 0, "rel": 0, "dereg": 3},
+                                      opts={"det": i, "mnc_len": 2, "imsi_len": 15, "free_msin": True, "msin_val": mv})
+        jobs.append(("carry%02d" % i, s2, t2))
     runs = online.run_many(sc, emu, jobs, parallel=8)
     _online_collect(v, runs, "C18", sc)
     v.samples = [{k: evs[0][k] for k in ("assignS", "assignI")}, clis[1], {"wire_run_cfg": runs[0]["scn"]["cfg"]}]
